@@ -64,6 +64,7 @@ def tsp():
 
         def rp():
             return {'kind': 'tsp', 'args': {'pin': concretize_str(pin, ev), 'pan': concretize_str(pan, ev), 'idx': idx}}
+        core.set_fallback(rp, 'C14/concretised')
         with guard('_get_tsp', 'C14/tsp-exception', rp):
             t = pb._get_tsp(pan, idx, pin)
         t = SymStr.of(t)
@@ -102,6 +103,7 @@ def pvv(nsym, tails, via, split=None):
         def rp():
             return {'kind': 'pvv', 'args': {'pin': concretize_str(pin, ev), 'pan': concretize_str(pan, ev), 'idx': idx, 'key': concretize_str(key, ev),
                                             'ct_model': ''.join(symstr.HEXCH[ev(n)] for n in ct), 'via': via}}
+        core.set_fallback(rp, 'C14/concretised')
         with guard('calculate_pvv', 'C14/pvv-exception/pin%s' % ('>4' if lp > 4 else '4'), rp):
             if via == 'function':
                 out = pb.calculate_pvv(pin, key, idx, pan)
@@ -132,6 +134,7 @@ def zmk(nparts):
             return {'kind': 'zmk', 'args': {'parts': [concretize_str(p, ev) for p in parts],
                                             'master': concretize_str(extra['master'], ev) if 'master' in extra else None,
                                             'kcvkeys': [symstr.concretize_bytes(b, ev).hex() for b in extra.get('kcvkeys', [])]}}
+        core.set_fallback(rp, 'C14/concretised')
         with guard('get_zone_master_key', 'C14/zmk-exception', rp):
             clear, kcv = k.get_zone_master_key(*parts)
         want = [z3.BitVecVal(0, 4)] * 32
